@@ -92,6 +92,20 @@ def run(ctx):
                         except (TypeError, ValueError):
                             continue
                         yield ("c04", dict(base, route="kw", P=None, kwargs=kw, _k="kw:%d:%s:%s" % (li, pat, P0.hex()[:40])))
+        # messages obtained by a lenient (VALNONE) parse of a damaged frame (checksum byte or payload byte substituted): "however a
+        # message is obtained", what it serialises to is a well-formed frame
+        from ..common import frame as _frame
+
+        for li, l in enumerate(lays):
+            if l["c"] != 1 or li % (1 if ctx.thorough else 4):
+                continue
+            P = walk.fill(l, "rand", rng, cfgdb)
+            f = bytearray(_frame(l["cls"], l["id"], P))
+            for pos in ((len(f) - 1, len(f) - 2) + ((6 + rng.randrange(len(P)),) if P else ())):
+                g = bytearray(f)
+                g[pos] ^= 1 << rng.randrange(8)
+                yield ("c04", {"m": l["m"], "cls": l["cls"], "id": l["id"], "name": l["name"], "names": None, "route": "lenient", "f": bytes(g).hex(),
+                               "P": None, "kwargs": None, "_k": "len:%d:%d" % (li, pos)})
         # payloads around the 16-bit length limit: construction must be refused or the frame must be well-formed
         inf = [l for l in lays if l["name"] in ("INF-NOTICE", "RXM-PMP-V1", "MON-VER") and l["c"] == 1][:3]
         for l in inf:
